@@ -371,7 +371,7 @@ func runWire(c Case) kit.Verdict {
 		return v
 	}
 	if len(got) != 2 {
-		return kit.Failf("C14/loop/no-self-entry/false-loop", "Via lines %q do not name this instance (%s) but the origin received %d requests after the probe; client got %q", m.in["Via"], self, len(got)-1, start)
+		return kit.Failf("C14/loop/"+falseLoopShape(m, self)+"/false-loop", "Via lines %q do not name this instance (%s) but the origin received %d requests after the probe; client got %q", m.in["Via"], self, len(got)-1, start)
 	}
 	_, oh := parseHead(got[1])
 
